@@ -118,6 +118,8 @@ def involved(it, op):
                     add(d["link"])
     elif o in ("set_pos", "clear_ext"):
         add(it.pick("mtag", op["t"]))
+    elif o == "sec_link":
+        add(it.pick("section", op["t"]))
     elif o == "set_featdata":
         add(it.pick("feature", op["t"]))
     elif o in ("prop_set", "prop_ext", "prop_clear"):
